@@ -91,7 +91,9 @@ fn implementation_cases(thorough: bool) -> Vec<Case> {
         }
     }
     // 2. arguments
-    let ai: Vec<Args> = vec![vec![], vec![("a", int())], vec![("a", Ty::NonNull(Box::new(int())))], vec![("a", int()), ("b", Ty::Named("String"))], vec![("a", Ty::List(Box::new(int())))]];
+    let l = |t: Ty| Ty::List(Box::new(t));
+    let nn = |t: Ty| Ty::NonNull(Box::new(t));
+    let ai: Vec<Args> = vec![vec![], vec![("a", int())], vec![("a", nn(int()))], vec![("a", int()), ("b", Ty::Named("String"))], vec![("a", l(int()))], vec![("a", l(l(int())))], vec![("a", l(nn(l(int()))))], vec![("a", l(l(l(int()))))]];
     let ao: Vec<Args> = vec![
         vec![],
         vec![("a", int())],
@@ -105,6 +107,13 @@ fn implementation_cases(thorough: bool) -> Vec<Case> {
         vec![("a", int()), ("c", Ty::NonNull(Box::new(int())))],
         vec![("c", int())],
         vec![("c", Ty::NonNull(Box::new(int())))],
+        vec![("a", l(l(int())))],
+        vec![("a", l(l(nn(int()))))],
+        vec![("a", l(nn(l(int()))))],
+        vec![("a", nn(l(l(int()))))],
+        vec![("a", l(l(Ty::Named("String"))))],
+        vec![("a", l(l(l(int()))))],
+        vec![("a", l(l(l(nn(int())))))],
     ];
     for a in &ai {
         for b in &ao {
